@@ -88,7 +88,25 @@ class Prop(BaseProp):
                 ops.append("key %s" % sg.mk_hash(rng).hex())
             if i % 5 == 4:
                 ops.append("key %s" % (b"\0" * 32).hex())
-            cases.append({"id": "d%d" % i, "text": " | ".join(ops + self._queries(rng, cas)), "meta": {"ncas": ncas}})
+            extra_q = []
+            if i % 2 == 0 and cas:
+                # a single-chunk xorb (its hash equals its chunk's hash) stored directly after another xorb: a query that
+                # runs past the first xorb's end and continues with that hash must stop at the xorb end
+                import struct
+                for _ in range(2):
+                    xb = rng.choice([c for c in cas if c["chunks"]] or cas)
+                    if not xb["chunks"]:
+                        continue
+                    w0 = struct.unpack("<Q", xb["hash"][:8])[0]
+                    yh = struct.pack("<Q", (w0 + 1) & ((1 << 64) - 1)) + bytes(rng.getrandbits(8) for _ in range(24))
+                    if any(c["hash"][:8] == yh[:8] for c in cas):
+                        continue
+                    y = {"hash": yh, "flags": 0, "nbytes": 77, "ndisk": 77, "chunks": [(yh, 77, 0, 0)]}
+                    cas.append(y)
+                    ops.append(sg.fmt_cas(y))
+                    s0 = rng.randrange(len(xb["chunks"]))
+                    extra_q.append("qd %s" % ",".join([x[0].hex() for x in xb["chunks"][s0:]] + [yh.hex()]))
+            cases.append({"id": "d%d" % i, "text": " | ".join(ops + extra_q + self._queries(rng, cas)), "meta": {"ncas": ncas}})
         # manager histories.  Duplicate chunk hashes are only introduced across flush boundaries, and only in
         # histories that never consolidate: the crate's debug-only verify_shard_integrity() compares two
         # key-sorted lists with different tie orders and panics on shards holding a repeated truncated key
